@@ -50,7 +50,7 @@ class CfdpLv:
             raise ValueError("Detected length exceeds size of passed bytearray")
         if detected_len == 0:
             return cls(value=bytes())
-        return cls(value=raw_bytes[1 : 1 + detected_len])
+        return cls(value=bytes(raw_bytes[1 : 1 + detected_len]))
 
     def __repr__(self):
         return f"{self.__class__.__name__}(value={self.value!r})"
